@@ -303,6 +303,9 @@ type c15Entry struct {
 	// separate top-level list; it stands for the pattern, not for its own name
 	AliasNames []string
 	SeqOf      int
+	// Via (Form 4): how the list of entry SeqOf is reused. 0: `ignore: *seq`; 1: block mapping with a
+	// merge key `<<: *entry`; 2: the whole entry is an alias `*entry`; 3: flow mapping `{<<: *entry}`
+	Via int
 }
 
 var c15AnchorNames = []string{"zzz9", "e", "a", "is", "c15pat", "o", "qqq", "the"}
@@ -648,6 +651,7 @@ func c15GenFilter(c *Case, p *c15Project, kind string, msgs []string) *c15Filter
 			for k, pe := range f.Entries {
 				if pe.Form == 0 && len(pe.Pats) > 0 {
 					e.Form, e.SeqOf, e.Pats = 4, k, pe.Pats
+					e.Via = r.Intn(4)
 					break
 				}
 			}
@@ -669,6 +673,7 @@ func c15Config(p *c15Project, f *c15Filter) string {
 	b.WriteString(p.BaseCfg)
 	anch := false
 	seqTarget := map[int]bool{}
+	entTarget := map[int]bool{}
 	for _, e := range f.Entries {
 		for i, n := range e.AliasNames {
 			if n != "" {
@@ -680,15 +685,31 @@ func c15Config(p *c15Project, f *c15Filter) string {
 			}
 		}
 		if e.Form == 4 {
-			seqTarget[e.SeqOf] = true
+			if e.Via == 0 {
+				seqTarget[e.SeqOf] = true
+			} else {
+				entTarget[e.SeqOf] = true
+			}
 		}
 	}
 	b.WriteString("paths:\n")
 	for ei, e := range f.Entries {
 		k := "  " + c15YAMLStr(e.Glob) + ":"
+		if entTarget[ei] {
+			k += " &c15ent" + fmt.Sprint(ei)
+		}
 		switch e.Form {
 		case 4:
-			b.WriteString(k + "\n    ignore: *c15seq" + fmt.Sprint(e.SeqOf) + "\n")
+			switch e.Via {
+			case 1:
+				b.WriteString(k + "\n    <<: *c15ent" + fmt.Sprint(e.SeqOf) + "\n")
+			case 2:
+				b.WriteString(k + " *c15ent" + fmt.Sprint(e.SeqOf) + "\n")
+			case 3:
+				b.WriteString(k + " {<<: *c15ent" + fmt.Sprint(e.SeqOf) + "}\n")
+			default:
+				b.WriteString(k + "\n    ignore: *c15seq" + fmt.Sprint(e.SeqOf) + "\n")
+			}
 		case 1:
 			b.WriteString(k + "\n    ignore: []\n")
 		case 2:
